@@ -5,12 +5,24 @@ import Mutiny.Proofs.WakeInv
 
 Model M8 (`Mutiny/Model/Wake.lean`): producers publish, observe the length and wake ONE stream chosen by `Rule.target`
 through the micro-steps of `wake_stream`; `k > 0` stream tasks run the micro-steps of `poll_next` /
-`register_stream_waker`.  Scope: every `N`, every `MAX > 0`, every number of streams `k > 0`, all four wake rules
-(`fs`, `atomic`, `rsv`, `cb`), any number of producer threads, any schedule of any length — including spurious polls
-with fresh (or even clashing) tokens — as long as the execution contains no `cancel`, no movable `send_with_async`
-(`asyncMov`) and no `dropS` (`C04Act`).  The three exclusions are necessary: see the counterexamples at the end
-(`asyncMov`: recorded finding) and `Mutiny/Props/C07.lean` (`cancel`: recorded finding).  `MAX > 0` is necessary too
-(`c04_max_zero_counterexample`).
+`register_stream_waker`.  Scope: every `N`, every `MAX > 0`, every number of streams `k > 0`, all seven wake rules, any number
+of producer threads, any schedule of any length — including spurious polls with fresh (or even clashing) tokens —
+
+* with publications that are one atomic queue step observing the exact length (`send`, `sendWith`, `sendRsv`, `asyncZc` +
+  `resume`: the lock-based and crossbeam kinds), **and**
+* with the two-phase publications of the channels over `AtomicMove` (`claim`; the in-order publication step `pClm`; the length
+  measurement `pSmp` = `len_after_publishing`, a fresh load of `head` AFTER the publication), interleaved arbitrarily with
+  each other, with the streams' steps and with suspended asynchronous sends of the movable atomic channel
+  (`asyncMov` … `resume`, any suspension length),
+
+as long as the execution contains no `cancel`, no `dropS`, and no movable `send_with_async` on a channel other than the movable
+atomic one (`C04Act`).  `cancel` is a recorded finding (`Mutiny/Props/C07.lean`); the movable full-sync channel's
+`send_with_async` holds the queue-wide lock while suspended (finding D8b, C20), so nothing interleaves with it.  `MAX > 0` is
+necessary (`c04_max_zero_counterexample`).
+
+History: the pinned source decided from the length observed when the slot was CLAIMED; that rule is not inductive
+(`c04_pinned_length_counterexample`: the two histories exhibited on the real channels, findings D5a / D5b) and was repaired in
+`/repo` (`fix:` commit "atomic channels decided whom to wake from the queue length observed when the slot was claimed").
 -/
 
 namespace Mutiny.Wake
@@ -18,50 +30,58 @@ namespace Mutiny.Wake
 /-- **C04.**  No execution reaches a stuck state (event queued, every producer at rest, every live stream parked and
     not notified). -/
 theorem c04_no_stuck_state (n mx k : Nat) (rule : Rule) (zc : Bool) (hk : 0 < k) (hm : 0 < mx)
-    (as : List Act) (has : ∀ a ∈ as, C04Act a) :
+    (as : List Act) (has : ∀ a ∈ as, C04Act rule a) :
     ¬ stuck (run (init n mx k rule zc) as) :=
   winv_not_stuck (winv_run _ as (winv_init n mx k rule zc hm hk) has)
 
 /-- the invariant (W1) itself: while an event is queued, some existing stream is armed (will poll again without outside
-    help) or some producer is still inside a `wake_stream(j)` of an existing stream `j` -/
+    help), or some producer is still inside a `wake_stream(j)` of an existing stream `j`, or some producer has published the
+    oldest pending event and is about to measure the length (it will find 1 and wake stream 0) -/
 theorem c04_armed_or_waking (n mx k : Nat) (rule : Rule) (zc : Bool) (hk : 0 < k) (hm : 0 < mx)
-    (as : List Act) (has : ∀ a ∈ as, C04Act a) :
+    (as : List Act) (has : ∀ a ∈ as, C04Act rule a) :
     let s := run (init n mx k rule zc) as
     s.q ≠ [] →
       (∃ j, j < s.k ∧ armed s j = true) ∨
-      (∃ t j r, j < s.k ∧ (s.thr t = .wWake j r ∨ s.thr t = .wLock j r ∨ s.thr t = .wSpin j r ∨ s.thr t = .wRetry j r)) := by
+      (∃ t j r, j < s.k ∧ (s.thr t = .wWake j r ∨ s.thr t = .wLock j r ∨ s.thr t = .wSpin j r ∨ s.thr t = .wRetry j r)) ∨
+      (∃ t r, s.thr t = .pSmp s.delivered.length r) := by
   intro s hq
-  rcases (winv_run _ as (winv_init n mx k rule zc hm hk) has).w1 hq with h | ⟨t, j, hj, hw⟩
+  rcases (winv_run _ as (winv_init n mx k rule zc hm hk) has).w1 hq with h | ⟨t, j, hj, hw⟩ | h
   · exact .inl h
   · obtain ⟨r, hr⟩ := (inWake_iff _ _).1 hw
-    exact .inr ⟨t, j, r, hj, hr⟩
+    exact .inr (.inl ⟨t, j, r, hj, hr⟩)
+  · exact .inr (.inr h)
 
 /-- **progress.**  In every reachable state with an event queued and all producers at rest, some existing stream is
     armed: it is `ready`, or parked with its token notified (`pollEnabled`: a fair executor polls it), or in the middle
     of a poll that ends in `ready`, or in a park with the notification already in or a self-wake still to come. -/
 theorem c04_progress_step (n mx k : Nat) (rule : Rule) (zc : Bool) (hk : 0 < k) (hm : 0 < mx)
-    (as : List Act) (has : ∀ a ∈ as, C04Act a) :
+    (as : List Act) (has : ∀ a ∈ as, C04Act rule a) :
     let s := run (init n mx k rule zc) as
     s.q ≠ [] → (∀ t, s.thr t = .idle ∨ ∃ r, s.thr t = .done r) → ∃ j, j < s.k ∧ armed s j = true := by
   intro s hq hp
-  rcases (winv_run _ as (winv_init n mx k rule zc hm hk) has).w1 hq with h | ⟨t, j, _, hw⟩
+  rcases (winv_run _ as (winv_init n mx k rule zc hm hk) has).w1 hq with h | ⟨t, j, _, hw⟩ | ⟨t, ht⟩
   · exact h
   · have hw' : inWake (s.thr t) j := hw
     rcases hp t with h1 | ⟨r, h1⟩ <;> rw [h1] at hw' <;> simp [inWake] at hw'
+  · obtain ⟨r', ht⟩ := ht
+    have ht' : s.thr t = .pSmp s.delivered.length r' := ht
+    rcases hp t with h1 | ⟨r, h1⟩ <;> rw [h1] at ht' <;> simp at ht'
 
 /-- an armed stream at a resting point is exactly one a fair executor polls -/
 theorem c04_armed_at_rest (s : St) (j : Nat) (hj : j < s.k) (h : s.sloc j = .ready ∨ s.sloc j = .parked) :
     armed s j = pollEnabled s j := by
   rcases h with h | h <;> simp [armed, pollEnabled, h, hj]
 
-/-- (W0)/(W2) along a C04 execution: streams never end, a parked stream has its current token registered -/
+/-- (W0)/(W2) along a C04 execution: streams never end, every accepted event is delivered or still queued, a parked stream
+    has its current token registered -/
 theorem c04_parked_registered (n mx k : Nat) (rule : Rule) (zc : Bool) (hk : 0 < k) (hm : 0 < mx)
-    (as : List Act) (has : ∀ a ∈ as, C04Act a) :
+    (as : List Act) (has : ∀ a ∈ as, C04Act rule a) :
     let s := run (init n mx k rule zc) as
-    (∀ j, j < s.k → s.keep j = true) ∧ (∀ j, (s.sloc j).live) ∧ s.resv = [] ∧
+    (∀ j, j < s.k → s.keep j = true) ∧ (∀ j, (s.sloc j).live) ∧
+      s.accepted.length = s.delivered.length + s.q.length ∧
       (∀ j, s.sloc j = .parked → s.waker j = some (s.tok j)) := by
   have h := winv_run _ as (winv_init n mx k rule zc hm hk) has
-  exact ⟨h.keepT, h.slocLv, h.resvE, fun j hj => h.w2 j (.inl hj)⟩
+  exact ⟨h.keepT, h.slocLv, h.lenEq, fun j hj => h.w2 j (.inl hj)⟩
 
 /-! ## non-vacuity -/
 
@@ -69,7 +89,7 @@ theorem c04_parked_registered (n mx k : Nat) (rule : Rule) (zc : Bool) (hk : 0 <
 example :
     let as := parkActs 0 ++ [.send 0 10, .stepP 0]
     let s := run (init 8 2 2 .fs false) as
-    (∀ a ∈ as, C04Act a) ∧ s.q = [10] ∧ s.thr 0 = .done .ok ∧ s.sloc 0 = .parked ∧ pollEnabled s 0 = true ∧
+    (∀ a ∈ as, C04Act .fs a) ∧ s.q = [10] ∧ s.thr 0 = .done .ok ∧ s.sloc 0 = .parked ∧ pollEnabled s 0 = true ∧
       armed s 0 = true := by
   decide
 
@@ -80,28 +100,53 @@ example :
     s.q = [10] ∧ s.thr 0 = .wWake 0 .ok ∧ s.sloc 0 = .parked ∧ armed s 0 = false := by
   decide
 
-/-! ## recorded findings: the exclusions are necessary -/
+/-- the two-phase publication: stream 0 is parked; a producer claims, publishes (the oldest pending event: third disjunct
+    of (W1) — every stream parked un-notified, nobody inside `wake_stream`), measures the length 1 and wakes stream 0 -/
+example :
+    let as := parkActs 0 ++ [.claim 0 10, .stepP 0]
+    let s := run (init 8 2 1 .atomic false) as
+    (∀ a ∈ as, C04Act .atomic a) ∧ s.q = [10] ∧ s.thr 0 = .pSmp 0 .atomic ∧ s.delivered.length = 0 ∧ s.sloc 0 = .parked ∧
+      armed s 0 = false ∧ (stepP s 0).thr 0 = .wWake 0 .ok := by
+  decide
 
-/-- the scenario: stream 0 parks on the empty channel; `send 0 10` wakes it; thread 1 starts a movable
-    `send_with_async` (reserves with `lenBefore = 1`, suspends); stream 0 takes `10`, polls again, finds nothing, parks;
-    the suspended setter completes and publishes `20`: `lenBefore < MAX` is false, nobody is woken -/
+/-! ## the history of finding D5a on the repaired rule -/
+
+/-- the scenario of D5a: stream 0 parks on the empty channel; `send 10` (two-phase) wakes it; thread 1 starts a movable
+    `send_with_async` (claims the next sequence number, suspends); stream 0 takes `10`, polls again, finds nothing, parks; the
+    suspended setter completes, publishes `20` and measures the length -/
 def asyncMovWitness : List Act :=
-  parkActs 0 ++ [.send 0 10, .stepP 0, .asyncMov 1 20, .poll 0 none, .stepS 0, .poll 0 none, .stepS 0, .stepS 0,
-    .stepS 0, .resume 1]
+  parkActs 0 ++ [.claim 0 10, .stepP 0, .stepP 0, .stepP 0, .asyncMov 1 20, .poll 0 none, .stepS 0, .poll 0 none, .stepS 0,
+    .stepS 0, .stepS 0, .resume 1, .stepP 1, .stepP 1]
 
-/-- **finding (movable `send_with_async`).**  With `asyncMov` allowed the claim fails (rule `atomic`, `N = 8`, `MAX = 1`,
-    one stream): the event `20` stays queued, both producers are done, the only stream is parked un-notified.  Every
-    `poll` of the witness is one a fair executor performs (from `ready`, or `parked` and notified). -/
-theorem c04_async_mov_counterexample :
-    stuck (run (init 8 1 1 .atomic false) asyncMovWitness) ∧
-      (∀ a ∈ asyncMovWitness, C04Act a ∨ a = .asyncMov 1 20) :=
-  ⟨stuck_run_of_check 8 1 1 .atomic false asyncMovWitness 2 (by decide) (by decide), by decide⟩
-
-/-- the concrete facts of the stuck state above -/
-theorem c04_async_mov_counterexample_state :
+/-- on the repaired rule the measurement finds `1` (only the own event is pending) and the producer wakes stream 0: the run is
+    a C04 execution, the event `20` is queued, the only stream is parked un-notified — and thread 1 is inside `wake_stream(0)`.
+    (The pinned rule used `len_before = 1`, `1 < MAX = 1` is false: nobody was woken.) -/
+theorem c04_async_mov_repaired :
     let s := run (init 8 1 1 .atomic false) asyncMovWitness
-    s.q = [20] ∧ s.accepted = [10, 20] ∧ s.delivered = [(0, 10)] ∧ s.sloc 0 = .parked ∧ s.keep 0 = true ∧
-      s.notified (s.tok 0) = false ∧ s.thr 0 = .done .ok ∧ s.thr 1 = .done .ok := by
+    (∀ a ∈ asyncMovWitness, C04Act .atomic a) ∧ s.q = [20] ∧ s.accepted = [10, 20] ∧ s.delivered = [(0, 10)] ∧
+      s.sloc 0 = .parked ∧ s.notified (s.tok 0) = false ∧ s.thr 0 = .done .ok ∧ s.thr 1 = .wWake 0 .ok ∧
+      (stepP s 1).notified (s.tok 0) = true := by
+  decide
+
+/-! ## recorded findings (repaired): what the pinned source computed -/
+
+/-- the length the PINNED `publish_movable` / `publish` reported: `len_before + 1`, `len_before = slot_id - head` with `head`
+    loaded when the slot was CLAIMED -/
+def pinnedLenAfter (slot headAtClaim : Nat) : Nat := slot - headAtClaim + 1
+/-- the length the repaired code reports: measured after the publication -/
+def repairedLenAfter (slot headAfterPublication : Nat) : Nat := max 1 (slot + 1 - headAfterPublication)
+/-- the pinned wake decision of the movable atomic channel's `send_with_async`: `len_before < MAX → wake(len_before)` -/
+def pinnedAsyncTarget (MAX lenBefore : Nat) : Option Nat := if lenBefore < MAX then some lenBefore else none
+
+/-- **findings D5a / D5b (pinned source).**
+    D5b: `MAX = 1`; two events are queued (`head = 0`) when a producer claims slot 2; the stream takes both and parks
+    (`head = 2`) before the publication: the pinned length is 3, outside the window `≤ MAX + 1` of rule `atomic` — nobody is
+    woken; the repaired length is 1 — stream 0 is woken.
+    D5a: one event queued when `send_with_async` claims slot 1 (`len_before = 1`), taken before the publication: the pinned
+    decision `1 < MAX = 1` wakes nobody; the repaired length is 1 — stream 0 is woken. -/
+theorem c04_pinned_length_counterexample :
+    Rule.atomic.target 1 (pinnedLenAfter 2 0) = none ∧ Rule.atomic.target 1 (repairedLenAfter 2 2) = some 0 ∧
+    pinnedAsyncTarget 1 (1 - 0) = none ∧ Rule.atomic.target 1 (repairedLenAfter 1 1) = some 0 := by
   decide
 
 /-- what `try_send_reserved` did before it was repaired (D5d): wake stream `len % MAX` -/
@@ -116,7 +161,7 @@ theorem c04_rsv_pinned_counterexample :
 /-- `MAX = 0` (no stream may be woken by length) is excluded for a reason: the first event wakes nobody -/
 theorem c04_max_zero_counterexample :
     stuck (run (init 8 0 1 .fs false) (parkActs 0 ++ [.send 0 10])) ∧
-      (∀ a ∈ parkActs 0 ++ [.send 0 10], C04Act a) :=
+      (∀ a ∈ parkActs 0 ++ [.send 0 10], C04Act .fs a) :=
   ⟨stuck_run_of_check 8 0 1 .fs false _ 1 (by decide) (by decide), by decide⟩
 
 end Mutiny.Wake
@@ -126,7 +171,7 @@ end Mutiny.Wake
 #print axioms Mutiny.Wake.c04_progress_step
 #print axioms Mutiny.Wake.c04_armed_at_rest
 #print axioms Mutiny.Wake.c04_parked_registered
-#print axioms Mutiny.Wake.c04_async_mov_counterexample
-#print axioms Mutiny.Wake.c04_async_mov_counterexample_state
+#print axioms Mutiny.Wake.c04_async_mov_repaired
+#print axioms Mutiny.Wake.c04_pinned_length_counterexample
 #print axioms Mutiny.Wake.c04_rsv_pinned_counterexample
 #print axioms Mutiny.Wake.c04_max_zero_counterexample
